@@ -111,7 +111,12 @@ def vec_obligations(ck):
 
 class NdIter(Stub):
     """assumed numpy contract: nditer(..., external_loop, buffered) yields consecutive, aligned
-    chunks that partition the batch; here one chunk (batches below the buffer size)"""
+    chunks that partition the batch (views: what the loop writes into the output operand's chunk is written to the output).
+    `nchunks` chunks; the sampler obligations are generated for one chunk (batches below the buffer size) and for a batch that
+    spans two chunks -- what happens at a chunk boundary (offsets of operands taken from outside the iterator, numbers drawn per chunk)
+    is then part of the proof, not of the bounded run"""
+
+    nchunks = 1
 
     def __init__(self, ops, flags=None, op_flags=None, **k):
         self.flags, self.op_flags = flags, op_flags
@@ -138,7 +143,13 @@ class NdIter(Stub):
         return False
 
     def __iter__(self):
-        yield tuple(self.ops)
+        n = self.ops[0].shape[0]
+        if self.nchunks <= 1 or n < self.nchunks:
+            yield tuple(self.ops)
+            return
+        cuts = [round(j * n / self.nchunks) for j in range(self.nchunks + 1)]
+        for lo, hi in zip(cuts[:-1], cuts[1:]):
+            yield tuple((None if o is None else EA(o.a[lo:hi])) for o in self.ops)
 
 
 def sampler_obligations(ck):
@@ -170,7 +181,8 @@ def sampler_obligations(ck):
             return self.ax[k]
 
     ov = {CDF.interpn: interpn, np.nditer: lambda interp, *a, **k: NdIter(*a, **k)}
-    for explicit in (True, False):
+    for nchunks, explicit in ((1, True), (1, False), (2, True), (2, False)):
+        NdIter.nchunks = nchunks  # the batch of nb events in one chunk / spanning two chunks of the buffered iterator
         it = harness.make_interp(ov, max_paths=400)
         es = [sp.Symbol("e%d" % i, real=True) for i in range(nb)]
         bs = [sp.Symbol("b%d" % i, real=True) for i in range(nb)]
@@ -198,7 +210,7 @@ def sampler_obligations(ck):
 
         paths = it.explore(mk)
         ck.add_functions(it)
-        tag = "[%s]" % ("explicit-u" if explicit else "generator")
+        tag = "[%s%s]" % ("explicit-u" if explicit else "generator", "" if nchunks == 1 else ",%d-chunks" % nchunks)
         if any(p.kind == "unsupported" for p in paths) or not paths:
             o = ck.ob("%s/exec%s" % (qn, tag), "exec")
             o.note = "; ".join("%s %s at %s" % (p.kind, p.exc, getattr(p, "where", "")) for p in paths if p.kind == "unsupported")[:300]
@@ -206,8 +218,12 @@ def sampler_obligations(ck):
             continue
         if not explicit:
             # the generator path draws one number per event of the chunk; with those numbers it is the explicit path
-            okd = all(len(p.rng_draws) == 1 and p.rng_draws[0].get("shape") == (nb,) and float(p.rng_draws[0]["lo"]) == 0.0 and float(p.rng_draws[0]["hi"]) == 1.0 for p in paths if p.kind == "return")
-            ck.direct("%s/ghost.rng%s" % (qn, tag), okd and any(p.kind == "return" for p in paths), "post", "symbolic execution", clause="u=None draws exactly one uniform(0,1) number per event of the chunk")
+            def drawn(p):
+                return sum(int(np.prod(d.get("shape") or (1,))) for d in p.rng_draws)
+
+            okd = all(len(p.rng_draws) == nchunks and drawn(p) == nb and all(float(d["lo"]) == 0.0 and float(d["hi"]) == 1.0 for d in p.rng_draws) for p in paths if p.kind == "return")
+            ck.direct("%s/ghost.rng%s" % (qn, tag), okd and any(p.kind == "return" for p in paths), "post", "symbolic execution", clause="u=None draws exactly one fresh uniform(0,1) number per event of every chunk",
+                      note=str([[d.get("shape") for d in p.rng_draws] for p in paths][:3]), replay_out=None if okd else native_first(ck))
             continue
         rows = holder["rows"]
         bad = [p for p in paths if p.kind != "return" or not isinstance(p.result, EA) or p.result.shape != (nb,)]
@@ -232,9 +248,10 @@ def sampler_obligations(ck):
             return meth == "linear" and (be is True or (isinstance(be, (bool, np.bool_)) and bool(be))) and not kw
 
         okc = bool(calls) and all(c[1] == ("AX_E", "AX_B") and c[2] == "TABLE" and effective(c[4]) for c in calls)
-        ck.direct("%s/call.interpn" % qn, okc, "pre", "symbolic-execution(call-site)", note=str([(c[1], c[4]) for c in calls])[:200],
+        ck.direct("%s/call.interpn%s" % (qn, "" if nchunks == 1 else "[%d-chunks]" % nchunks), okc, "pre", "symbolic-execution(call-site)", note=str([(c[1], c[4]) for c in calls])[:200],
                   clause="interpn is called on (log_e_nu, beta_rad) -- the first two axes of the table, in order -- with scipy's default bounds_error (out-of-range energies raise), rows along e_tau_frac",
                   replay_out=None if okc else native_first(ck))
+    NdIter.nchunks = 1
     # shape mismatch and empty batch
     it = harness.make_interp(ov)
 
